@@ -118,6 +118,47 @@ structure Claim where
   cterm : Nat := 0   -- the term of the node that released the evidence
   deriving DecidableEq, Repr
 
+/-! read-index bookkeeping (ghost; no other part of the state depends on it) -/
+
+/-- a read request as issued by the application on `node`; `ncm` / `nak` = how many leader commits /
+released acknowledgements existed at that moment (both lists only grow at the head) -/
+structure ReadRec where
+  rid : Nat
+  node : Nat
+  ncm : Nat
+  nak : Nat
+  deriving DecidableEq, Repr
+
+/-- leader `ldr` of `term` registered request `rid` with read index `idx` (its commit index then) -/
+structure ReadStart where
+  rid : Nat
+  ldr : Nat
+  term : Nat
+  idx : Nat
+  deriving DecidableEq, Repr
+
+/-- node `frm` confirmed, while in `term`, a heartbeat sent after request `rid` was registered -/
+structure HbAck where
+  rid : Nat
+  frm : Nat
+  term : Nat
+  deriving DecidableEq, Repr
+
+/-- answer `idx` to request `rid` for node `to` (a released response, or a read state handed out) -/
+structure ReadResp where
+  rid : Nat
+  to : Nat
+  idx : Nat
+  deriving DecidableEq, Repr
+
+structure RdState where
+  issued : List ReadRec := []
+  started : List ReadStart := []
+  hbacks : List HbAck := []
+  resps : List ReadResp := []
+  done : List ReadResp := []
+  deriving Repr
+
 /-- a (joint) voter configuration -/
 structure Cfg where
   incoming : List Nat
@@ -139,6 +180,7 @@ structure PSys where
   elog : Nat → List LEntry := fun _ => []   -- the log each term's leader was elected with
   rgv : List (Grant × VGhost) := []         -- ghost records of the released grants
   cmts : List (Nat × Nat) := []             -- (term, index) of every leader commit
+  rd : RdState := {}                        -- read-index bookkeeping
 
 def init : PSys := { nodes := fun _ => {}, llog := fun _ => [], elected := [] }
 
@@ -189,7 +231,19 @@ def Cfg.isQuorum (c : Cfg) (q : List Nat) : Bool :=
 
 /-! ### events -/
 
+/-- read-index events (Safe mode): the application issues a request on a node; the leader registers
+it with its commit index as read index; nodes confirm heartbeats; the leader answers a remote
+requester; a read state is handed to the application -/
+inductive REvent where
+  | issue (i rid : Nat)
+  | start (i rid : Nat)
+  | hback (v : Nat)
+  | resp (i rid idx : Nat) (cfg : Cfg)
+  | rstate (j rid idx : Nat) (cfg : Cfg)
+  deriving Repr
+
 inductive Event where
+  | read (r : REvent)
   | bump (i t : Nat)
   | campaign (i : Nat)
   | grant (i c : Nat)
@@ -241,8 +295,51 @@ def sameKey : OMsg → OMsg → Bool
   | .ack t f idx _, .ack t' f' idx' _ => t == t' && f == f' && idx == idx'
   | _, _ => false
 
+/-- who confirmed leadership of `i` in `term` for request `rid`: `i` itself and every node whose
+heartbeat confirmation was generated after `rid` was registered -/
+def rdQuorum (s : PSys) (cfg : Cfg) (i term rid : Nat) : Bool :=
+  cfg.isQuorum (i :: ((s.rd.hbacks.filter (fun h => h.rid = rid ∧ h.term = term)).map (·.frm)))
+
+/-- the read-index layer: only `s.rd` changes -/
+def applyRead (s : PSys) : REvent → Except String RdState
+  | .issue i rid =>
+    if (s.nodes i).up ∧ ¬ s.rd.issued.any (fun r => r.rid = rid) then
+      .ok { s.rd with issued := ⟨rid, i, s.cmts.length, s.acks.length⟩ :: s.rd.issued }
+    else .error "read issue: node down or request context not unique"
+  | .start i rid =>
+    let n := s.nodes i
+    if n.up ∧ n.role = 2 ∧ s.rd.issued.any (fun r => r.rid = rid) ∧ 0 < n.commit ∧ termAt n.log n.commit = n.term then
+      .ok { s.rd with started := ⟨rid, i, n.term, n.commit⟩ :: s.rd.started }
+    else .error "read start: not a leader that has committed an entry of its own term, or unknown request"
+  | .hback v =>
+    let n := s.nodes v
+    if n.up then
+      .ok { s.rd with hbacks := ((s.rd.started.filter (fun st => st.term = n.term)).map (fun st => ⟨st.rid, v, n.term⟩)) ++ s.rd.hbacks }
+    else .error "read hback: node down"
+  | .resp i rid idx cfg =>
+    let n := s.nodes i
+    match s.rd.issued.find? (fun r => r.rid = rid) with
+    | some r =>
+      if n.up ∧ n.role = 2 ∧ s.rd.started.contains ⟨rid, i, n.term, idx⟩ ∧ rdQuorum s cfg i n.term rid then
+        .ok { s.rd with resps := ⟨rid, r.node, idx⟩ :: s.rd.resps }
+      else .error "read resp: not the leader that registered the request with this index, or leadership not confirmed by a quorum since"
+    | none => .error "read resp: unknown request"
+  | .rstate j rid idx cfg =>
+    let n := s.nodes j
+    match s.rd.issued.find? (fun r => r.rid = rid) with
+    | some r =>
+      if n.up ∧ r.node = j ∧ (s.rd.resps.contains ⟨rid, j, idx⟩ ∨
+          (n.role = 2 ∧ s.rd.started.contains ⟨rid, j, n.term, idx⟩ ∧ rdQuorum s cfg j n.term rid)) then
+        .ok { s.rd with done := ⟨rid, j, idx⟩ :: s.rd.done }
+      else .error "read state: not on the node where the request was issued, or neither a released response nor a confirmed local read"
+    | none => .error "read state: unknown request"
+
 /-- The step function of P.  `.error why` = the event is not a step of P from this state. -/
 def applyEvent (s : PSys) : Event → Except String PSys
+  | .read r =>
+    match applyRead s r with
+    | .ok rd => ok { s with rd := rd }
+    | .error x => .error x
   | .bump i t =>
     let n := s.nodes i
     if n.up ∧ n.term < t then
